@@ -21,6 +21,42 @@ FILTER_MON = {"mon_filter": {"sources": ["mon_filter.c", "vf.c"]}}
 C01_MON = {"mon_c01": {"sources": ["mon_c01.c", "ref_pixel.c", "ref_ops.c", "vf.c"]}}
 GENERAL_ONLY = {"PIXMAN_DISABLE": "fast mmx sse2 ssse3"}
 
+CHAIN_MON = {"mon_chain": {"sources": ["mon_chain.c", "vf_req.c", "ref_pixel.c", "vf.c"]}}
+CHAINS_QUICK = [("default", ""), ("no-ssse3", "ssse3"), ("mmx-top", "sse2 ssse3"), ("c-only", "mmx sse2 ssse3"), ("general-only", "fast mmx sse2 ssse3"),
+                ("wholeops", "wholeops"), ("wholeops-general", "wholeops fast mmx sse2 ssse3")]
+
+
+def all_chains():
+    out = []
+    names = ["fast", "mmx", "sse2", "ssse3"]
+    for w in (0, 1):
+        for m in range(16):
+            dis = [n for i, n in enumerate(names) if m >> i & 1] + (["wholeops"] if w else [])
+            nm = "all-enabled" if not dis else "no-" + "-".join(dis)
+            if dis == names:
+                nm = "general-only"
+            out.append((nm, " ".join(dis)))
+    return out
+
+
+def chain_runs(monitor, qcases, tcases, flavour="plain", extra=None):
+    runs = []
+    quick_names = set(n for n, _ in CHAINS_QUICK)
+    seen = set()
+    for nm, dis in CHAINS_QUICK + all_chains():
+        key = " ".join(sorted(dis.split()))
+        if key in seen:
+            continue
+        seen.add(key)
+        r = dict(name=nm, monitor=monitor, flavour=flavour, config=nm, env={"PIXMAN_DISABLE": dis} if dis else {}, cases={"quick": qcases, "thorough": tcases})
+        if nm not in quick_names:
+            r["tiers"] = ("thorough",)
+        if extra:
+            r.update(extra)
+        runs.append(r)
+    return runs
+
+
 PROPS = {
     "C05": dict(
         level="exploration", monitors=REGION_MON,
@@ -107,6 +143,35 @@ PROPS = {
         assumptions=["reference equations in harness/ref_ops.c written from the Render/PDF specifications", "HSL operators with a component-alpha mask and dithered destinations are not claimed",
                      "indexed, gray and YUV formats are exercised by C10, not here"],
     ),
+    "C02": dict(
+        level="exploration", monitors=CHAIN_MON, digest_compare=True,
+        runs=chain_runs("mon_chain", 60000, 900000),
+        rule="one request stream (2/3 synthesised from every entry of every implementation's fast-path and iterator tables: operator, format triple and the image properties its flag word promises; 1/3 free random requests) "
+             "with random widths 1..70, heights 1..5, strides, start alignments, clips, is executed by one process per implementation chain (PIXMAN_DISABLE): quick 7 chains "
+             "{all, no ssse3, mmx top, C only, general only, wholeops, wholeops+general only}, thorough all 32 subsets; each case logs a 64-bit digest of the defined destination bits (+ row padding and alpha map) and an offline checker "
+             "requires every chain to agree on every case; evaluations = executed requests; a cell = (op, operand kinds/formats, transform class, filter, repeat, clip/cover/CA/accessor flags) by hash; "
+             "labels 'fastpath'/'iter' list the routines that were actually selected (trace hook, coverage only)",
+        floors={"any": {"cases_compared_across_chains": 5000, "labels:recipes_used": 560, "labels:fastpath": 140}},
+        assumptions=["the oracle is agreement between chains, not an absolute reference (absolute correctness: C01, C08, C10)", "ARM/MIPS/VMX implementations are not compiled on this host"],
+    ),
+    "C04": dict(
+        level="exploration", monitors=CHAIN_MON,
+        runs=[dict(name="asan-default-hostile", monitor="mon_chain", flavour="asan", config="hostile-default", cases={"quick": 24000, "thorough": 600000}),
+              dict(name="asan-c-only-hostile", monitor="mon_chain", flavour="asan", config="hostile-c-only", env={"PIXMAN_DISABLE": "mmx sse2 ssse3"}, cases={"quick": 12000, "thorough": 300000}),
+              dict(name="asan-general-hostile", monitor="mon_chain", flavour="asan", config="hostile-general", env={"PIXMAN_DISABLE": "fast mmx sse2 ssse3"}, cases={"quick": 12000, "thorough": 300000}),
+              dict(name="asan-wholeops-hostile", monitor="mon_chain", flavour="asan", config="hostile-wholeops", env={"PIXMAN_DISABLE": "wholeops"}, cases={"quick": 12000, "thorough": 300000}),
+              dict(name="asan-mmx-top", monitor="mon_chain", flavour="asan", config="hostile-mmx", env={"PIXMAN_DISABLE": "sse2 ssse3"}, cases={"quick": 8000, "thorough": 300000}),
+              dict(name="asan-no-ssse3", monitor="mon_chain", flavour="asan", config="hostile-no-ssse3", env={"PIXMAN_DISABLE": "ssse3"}, cases={"quick": 8000, "thorough": 300000}),
+              dict(name="guards-default-hostile", monitor="mon_chain", flavour="plain", config="hostile-default", cases={"quick": 60000, "thorough": 1500000}),
+              dict(name="guards-wholeops-hostile", monitor="mon_chain", flavour="plain", config="hostile-wholeops", env={"PIXMAN_DISABLE": "wholeops"}, cases={"quick": 30000, "thorough": 800000})],
+        rule="the C02 request stream (every fast-path / iterator table entry + random requests) with every source, mask, destination and alpha map in exact-size storage: guard pages directly after (2/3) or before (1/3) the storage in the plain flavour, "
+             "exact-size malloc blocks (red zones) or guard pages under ASan; 1/3 of the requests use the hostile-geometry profile (offsets up to +-2^31, rectangles up to 140000 wide, scales 1/4000..4000, translations to +-32767, "
+             "projective rows with w crossing 0, very wide (12000..32767) sources, negative strides); the oracle is the absence of an ASan report, a guard-page fault or a bounds/null report, attributed to the in-flight request; "
+             "evaluations = executed requests; a cell = request class hash; labels list the routines executed",
+        floors={"any": {"hostile_mode_cases": 50000, "labels:fastpath": 140, "labels:iter": 50}},
+        assumptions=["storage the caller described = rows up to the end of the last 32-bit word holding a pixel (+ inter-row padding of a padded stride)",
+                     "red-zone/guard-page detection misses non-adjacent overflows into other live heap blocks and intra-object overflows"],
+    ),
 }
 
 # ---------------------------------------------------------------- MANIFEST texts
@@ -135,6 +200,21 @@ MANIFEST_TEXT["C18"] = dict(
     technique="structural runtime monitor on the returned block + ASan (exact-size heap block) + UBSan attribution in pixman-filter.c",
     level_text="Exploration, exhaustive over an enumerated grid: all 64 kernel pairs x 21 scales x subsample bits 0..8 per axis plus random scales; each block is checked for length/header agreement, exact 64-bit phase sums, set_filter acceptance and constancy of a filtered constant image, under ASan.",
     level_note="trusted: 64-bit re-summation in harness/mon_filter.c; ASan red zones around the library's own malloc block")
+
+MANIFEST_TEXT["C02"] = dict(
+    technique="differential runtime monitoring: per-case destination digests logged by one process per PIXMAN_DISABLE chain, offline cross-chain checker; table-directed request generation",
+    level_text="Exploration: every fast-path and iterator table entry of the fast/mmx/sse2/ssse3/noop/general implementations is turned into requests with varying width, alignment, stride and clips; the same stream runs under 7 (quick) or 32 (thorough) chains and the digests must agree.",
+    level_note="trusted: digest over defined destination bits; table walking uses the private header for workload steering only")
+
+MANIFEST_TEXT["C04"] = dict(
+    technique="AddressSanitizer + bounds/null UBSan + mprotect guard pages around exact-size pixel storage, crash attribution to the in-flight request; table-directed and hostile-geometry workloads under 6 implementation chains",
+    level_text="Exploration: ~10^5 (quick) to ~5*10^6 (thorough) requests covering every fast-path/iterator table entry and hostile geometry, every image in exact-size guarded storage, under ASan and guard pages for several PIXMAN_DISABLE chains; a report or fault is a violation tied to the request.",
+    level_note="trusted: ASan/guard pages as oracle; what counts as described storage is stated in the evidence assumptions")
+
+MANIFEST_TEXT["C01"] = dict(
+    technique="reference-model runtime monitor: exact 8-bit integer rule and real-valued Render/PDF equations evaluated on every destination pixel (default and general-only chains, plain + ASan)",
+    level_text="Exploration: ~10^7 (quick) to ~10^9 (thorough) destination pixels over all 53 operators x 3 mask modes x every direct-colour format (narrow, 10-bit, sRGB, float) and operand kind, each compared with an independent oracle: bit-exact for Porter-Duff/ADD on narrow formats, one destination step for float evaluation; the thorough tier walks all 256x256 alpha pairs for the 14 exact operators.",
+    level_note="trusted: harness/ref_ops.c (equations from the Render/PDF specifications) and ref_pixel.c (codec); HSL with component alpha, dithering and indexed/YUV operands are outside this check")
 
 NOT_CLAIMED = {p: "monitor not built yet in this round (design in DESIGN.md section 6); no claim is made" for p in
                ["C%02d" % i for i in range(1, 21)]}
